@@ -32,6 +32,9 @@ def full_alphabet(cA, cB):
          [['log']],
          [['send', 0.25, 'TAG']], [['send', None, 'TAG']],
          [['sendb', 0.25, 0.5, 'TAG']], [['sendb', 0, 0.25, 'TAG']],
+         # the very same bundle twice at one logical time (B body 8 sends it
+         # as well): every copy is a bundle of its own in both modes
+         [['send', 0.25, 90], ['send', 0.25, 90]],
          [['play', 'B', cB, 0]],
          [['pause', 'B']], [['resume', 'B']], [['stop', 'B']],
          [['wait', 'c0']],
@@ -65,6 +68,7 @@ B_BODIES = [
     [['yield', 0.25], ['set', 'c0', True], ['signal', 'c0']],
     [['yield', 0.25], ['yield', 0.25], ['log']],
     [['log'], ['yield', 0.5], ['yield', 0.5], ['rand', 'choice']],
+    [['send', 0.25, 90], ['yield', 0.5], ['send', 0, 90]],
 ]
 
 CLOCK_PAIRS = [('s', 's'), ('s', 't2'), ('t2', 'a'), ('a', 's'),
@@ -204,9 +208,12 @@ def observe(prog, res, mode):
             per.setdefault(e[1], []).append(['send', e[3]])
             sendlog[e[3]] = e[5]
     sends = {}
+    counts = {}
 
     def key(addr, tag):
-        return str(tag) if addr == '/t' else f'{addr}{tag}'
+        k = str(tag) if addr == '/t' else f'{addr}{tag}'
+        counts[k] = counts.get(k, 0) + 1
+        return k
     if mode == 'rt':
         for now, hexd in res['sent']:
             pkt = osc10.decode(bytes.fromhex(hexd))
@@ -216,8 +223,9 @@ def observe(prog, res, mode):
                     t = sendlog.get(tag)
                 else:
                     t = (tt - c07.ntp(0.0)) / 2 ** 32
-                sends[key(addr, tag)] = t
-        return {'per': per, 'sends': sends, 'status': res['status']}
+                sends.setdefault(key(addr, tag), []).append(t)
+        return {'per': per, 'sends': sends, 'counts': counts,
+                'status': res['status']}
     # NRT: what is rendered is the binary score - every message of every
     # (nested) bundle of it, with the time tag of its enclosing bundle
     raw = bytes.fromhex(res['raw'])
@@ -229,14 +237,15 @@ def observe(prog, res, mode):
             i += 4 + n
             for tt, addr, args in osc10.flatten(pkt):
                 if addr in ('/t', '/u'):
-                    sends[key(addr, args[0][1])] = tt / 2 ** 32
+                    sends.setdefault(key(addr, args[0][1]), []).append(
+                        tt / 2 ** 32)
     except Exception as e:      # an unreadable score is a difference as well
         sends['unreadable-score'] = repr(e)[:100]
     lst = {}
     for b in res['score']:
         if b[1][0] == '/t':
-            lst[str(b[1][1])] = b[0]
-    return {'per': per, 'sends': sends, 'sends_list': lst,
+            lst.setdefault(str(b[1][1]), []).append(b[0])
+    return {'per': per, 'sends': sends, 'sends_list': lst, 'counts': counts,
             'status': res['status']}
 
 
@@ -261,20 +270,29 @@ def compare(o_nrt, o_rt):
             dis.append((kind, {'nrt': ea}, {'rt': eb},
                         f'{who} event {n}: nrt {a} / rt {b}'))
     if not dis:
+        def differ(ta, tb):
+            if ta is None or tb is None or len(ta) != len(tb):
+                return True
+            if any(x is None for x in ta + tb):
+                return True
+            return any(abs(x - y) > 2.0 ** -31
+                       for x, y in zip(sorted(ta), sorted(tb)))
         sl = o_nrt.get('sends_list', {})
         for tag, t in sl.items():
             tr = o_rt['sends'].get(tag)
-            if tr is None or abs(t - tr) > 2.0 ** -31:
+            if differ(t, tr):
                 dis.append(('modes-differ-bundle-time', t, tr,
                             f'tag {tag} (score list)'))
+        if o_nrt.get('counts') != o_rt.get('counts'):
+            dis.append(('modes-differ-bundle-count', o_nrt.get('counts'),
+                        o_rt.get('counts'), 'messages per tag'))
         sa, sb = o_nrt['sends'], o_rt['sends']
         if set(sa) != set(sb):
             dis.append(('modes-differ-bundles-sent', sorted(sa), sorted(sb),
                         ''))
         else:
             for tag in sa:
-                if sa[tag] is None or sb[tag] is None or \
-                        abs(sa[tag] - sb[tag]) > 2.0 ** -31:
+                if differ(sa[tag], sb[tag]):
                     dis.append(('modes-differ-bundle-time', sa[tag], sb[tag],
                                 f'tag {tag}'))
     return dis
